@@ -37,7 +37,7 @@ func main() {
 	run := ev.Start("C14", "exploration")
 	run.SetRule("distinct = distinct dimension vectors that reached the deciding call: (surface/router, verifier settings class, iss, sub kind, aud form, reference time zones, signing key, kid kind, alg, tamper, extra claims [, grant owner, outer client_id, assertion type | requesting client, outer form, object client_id/response_type kind])")
 	run.Assume(
-		"time: every temporal clause has a grey band of ±(2 s + configured offset) around its boundary and is evaluated before and after the call; disagreement is inconclusive",
+		"time (bracketed: reference evaluated before and after the call, disagreement is inconclusive): exp must-reject when exp <= now-2s whatever the offset, must-accept when exp >= now+offset+2s (an offset may only make expiry stricter); iat must-accept when iat <= now-2s, must-reject when iat >= now+offset+2s; age must-accept when <= maxAge-2s, must-reject when >= maxAge+2s; grey in between",
 		"a kid header that does not lead to the signing key although that key is held for the named client is grey (the statement does not mention kid)",
 		"algorithms outside the provider's fixed list RS256/ES256/PS256 and algorithms differing from the registered JWK alg are grey on the accept side; an Ed25519 client key is a recorded limitation (DESIGN 6a), not judged",
 		"a custom subject check that returns an error must lead to refusal; a missing iat must be refused only when a max age is configured; nbf is not judged",
@@ -71,8 +71,9 @@ func main() {
 	nReqObj := run.N(5000, 100000)
 	nInterop := run.N(360, 3600)
 	nDyn := run.N(1800, 36000)
+	nRP := run.N(144, 1440)
 
-	streams := map[string]func(*ev.Run, int){"direct": directCase, "endpoint": endpointCase, "reqobj": reqObjCase, "interop": interopCase, "dynhost": dynCase}
+	streams := map[string]func(*ev.Run, int){"direct": directCase, "endpoint": endpointCase, "reqobj": reqObjCase, "interop": interopCase, "dynhost": dynCase, "rpinterop": rpInteropCase}
 	if rc := run.ReplayCase(); rc >= 0 {
 		var w struct {
 			Stream string `json:"stream"`
@@ -90,6 +91,7 @@ func main() {
 	}
 	run.Mandatory(mand...)
 	run.Mandatory(dynMandatory()...)
+	run.Mandatory(rpMandatory()...)
 	phases := map[string]float64{}
 	phase := func(name string, n int, fn func(*ev.Run, int)) {
 		t := time.Now()
@@ -98,6 +100,7 @@ func main() {
 	}
 	// interop first: its literal samples are the rarest
 	phase("interop", nInterop, interopCase)
+	phase("rpinterop", nRP, rpInteropCase)
 	phase("dynhost", nDyn, dynCase)
 	phase("reqobj", nReqObj, reqObjCase)
 	phase("endpoint", nEndpoint, endpointCase)
@@ -106,6 +109,6 @@ func main() {
 		run.Count("observation_not_judged:object_without_iss_and_client_id_signed_with_a_key_stored_under_the_empty_client_id", "panic: "+pi.Value)
 	}
 	run.Extra("phase_wall_s", phases)
-	run.Extra("cases", map[string]int{"direct": nDirect, "endpoint": nEndpoint, "reqobj": nReqObj, "interop": nInterop, "dynhost": nDyn})
+	run.Extra("cases", map[string]int{"direct": nDirect, "endpoint": nEndpoint, "reqobj": nReqObj, "interop": nInterop, "dynhost": nDyn, "rpinterop": nRP})
 	run.Finish()
 }
